@@ -221,6 +221,19 @@ func c07Case(w *core.Worker, i int) {
 			viol("total-order", q1, "differs from the reference sort", ids, ref)
 		}
 	}
+	// Q1b: the total order again, behind analytic functions that sort the rows by the same columns in other directions
+	for _, an := range []string{
+		"RANK() OVER (ORDER BY " + names[0] + " DESC)",
+		"ROW_NUMBER() OVER (PARTITION BY " + names[len(names)-1] + " ORDER BY " + names[0] + ", id DESC)",
+		"SUM(id) OVER (ORDER BY " + names[0] + " NULLS LAST), COUNT(*) OVER (PARTITION BY " + names[0] + ")",
+	} {
+		q := "SELECT id, " + an + " FROM t ORDER BY " + orderBy + ", id"
+		if v := run(q); v != nil {
+			if ids := idsOf(v); !eqInts(ids, ref) {
+				viol("total-order:behind-analytic", q, "differs from the reference sort", ids, ref)
+			}
+		}
+	}
 	// Q2: ORDER BY behind the other clauses of the same SELECT (DISTINCT, analytic functions, GROUP BY, WHERE, sub-query):
 	// whatever rows those produce, they must come out sorted by the listed keys
 	keyNames := append([]string{}, names...)
